@@ -577,6 +577,36 @@ impl Harness for C05 {
                 jobs.push(Job::new(format!("struct-reg-n{}-p{}-offsets", n, p), json!({"kind": "struct", "ext": "offsets", "model": "reg", "n": n, "p": p, "grid": "ext"})));
             }
         }
+        // ---- extension (round 2), larger sizes (bulk: fit + predict + judge); the longest jobs of the tier, so they start before the many small bulk jobs
+        {
+            // label tables: quick n = 5 with the limits disabled; thorough n = 5 on the table grid, n = 6 with the limits disabled
+            let off: &[(&str, i64)] = &[("depth", 0), ("msl", 1), ("mss", 0)];
+            for m in &MODELS[1..] {
+                jobs.push(ext(format!("lat-{}-p1-n5-rtables", m), "lat", "tables", m, 1, 5, if t { &[] } else { off }, true));
+                jobs.push(ext(format!("perm-{}-p1-n5-rtables", m), "perm", "tables", m, 1, 5, if t { &[] } else { off }, true));
+                if t {
+                    jobs.push(ext(format!("lat-{}-p1-n6-rtables", m), "lat", "tables", m, 1, 6, off, true));
+                    jobs.push(ext(format!("perm-{}-p1-n6-rtables", m), "perm", "tables", m, 1, 6, off, true));
+                }
+            }
+            // offset targets: p = 1, n = 5 [6]: max_depth {1,2,None} x msl {1,2} (thorough n = 5: the whole offset grid); p = 2, n = 3 [4]: msl 1
+            for d in OFF_DEPTH {
+                for l in [1i64, 2] {
+                    if t {
+                        jobs.push(ext(format!("lat-reg-p1-n6-offsets-depth{}-msl{}", d, l), "lat", "offsets", "reg", 1, 6, &[("depth", d), ("msl", l), ("mss", 0)], true));
+                    } else {
+                        jobs.push(ext(format!("lat-reg-p1-n5-offsets-depth{}-msl{}", d, l), "lat", "offsets", "reg", 1, 5, &[("depth", d), ("msl", l), ("mss", 0)], true));
+                    }
+                }
+                if t {
+                    jobs.push(ext(format!("lat-reg-p1-n5-offsets-depth{}", d), "lat", "offsets", "reg", 1, 5, &[("depth", d)], true));
+                    jobs.push(ext(format!("lat-reg-p2-n3-offsets-depth{}", d), "lat", "offsets", "reg", 2, 3, &[("depth", d)], true));
+                    jobs.push(ext(format!("lat-reg-p2-n4-offsets-depth{}", d), "lat", "offsets", "reg", 2, 4, &[("depth", d), ("msl", 1), ("mss", 0)], true));
+                } else {
+                    jobs.push(ext(format!("lat-reg-p2-n3-offsets-depth{}", d), "lat", "offsets", "reg", 2, 3, &[("depth", d), ("msl", 1), ("mss", 0)], true));
+                }
+            }
+        }
         // ---- larger lattices: one job per (model, depth, msl) [and first letters]
         let mut big = |name: &str, kind: &str, p: usize, n: usize, map: usize, split_mss: bool, base_only: bool| {
             for m in MODELS {
@@ -618,36 +648,6 @@ impl Harness for C05 {
                             ));
                         }
                     }
-                }
-            }
-        }
-        // ---- extension (round 2), larger sizes (bulk: fit + predict + judge)
-        {
-            // label tables: quick n = 5 with the limits disabled; thorough n = 5 on the table grid, n = 6 with the limits disabled
-            let off: &[(&str, i64)] = &[("depth", 0), ("msl", 1), ("mss", 0)];
-            for m in &MODELS[1..] {
-                jobs.push(ext(format!("lat-{}-p1-n5-rtables", m), "lat", "tables", m, 1, 5, if t { &[] } else { off }, true));
-                jobs.push(ext(format!("perm-{}-p1-n5-rtables", m), "perm", "tables", m, 1, 5, if t { &[] } else { off }, true));
-                if t {
-                    jobs.push(ext(format!("lat-{}-p1-n6-rtables", m), "lat", "tables", m, 1, 6, off, true));
-                    jobs.push(ext(format!("perm-{}-p1-n6-rtables", m), "perm", "tables", m, 1, 6, off, true));
-                }
-            }
-            // offset targets: p = 1, n = 5 [6]: max_depth {1,2,None} x msl {1,2} (thorough n = 5: the whole offset grid); p = 2, n = 3 [4]: msl 1
-            for d in OFF_DEPTH {
-                for l in [1i64, 2] {
-                    if t {
-                        jobs.push(ext(format!("lat-reg-p1-n6-offsets-depth{}-msl{}", d, l), "lat", "offsets", "reg", 1, 6, &[("depth", d), ("msl", l), ("mss", 0)], true));
-                    } else {
-                        jobs.push(ext(format!("lat-reg-p1-n5-offsets-depth{}-msl{}", d, l), "lat", "offsets", "reg", 1, 5, &[("depth", d), ("msl", l), ("mss", 0)], true));
-                    }
-                }
-                if t {
-                    jobs.push(ext(format!("lat-reg-p1-n5-offsets-depth{}", d), "lat", "offsets", "reg", 1, 5, &[("depth", d)], true));
-                    jobs.push(ext(format!("lat-reg-p2-n3-offsets-depth{}", d), "lat", "offsets", "reg", 2, 3, &[("depth", d)], true));
-                    jobs.push(ext(format!("lat-reg-p2-n4-offsets-depth{}", d), "lat", "offsets", "reg", 2, 4, &[("depth", d), ("msl", 1), ("mss", 0)], true));
-                } else {
-                    jobs.push(ext(format!("lat-reg-p2-n3-offsets-depth{}", d), "lat", "offsets", "reg", 2, 3, &[("depth", d), ("msl", 1), ("mss", 0)], true));
                 }
             }
         }
